@@ -185,6 +185,12 @@ class C11(SessionProperty):
             else:
                 value = rng.choice(scopegen.NAMES)  # write a *reference*: a new link of a chain
             kind = "set" if rng.random() < 0.8 else "assign"
+            if rng.random() < 0.2:
+                # change which binding defines a name: add / remove a same-named attribute of the target set
+                nm = rng.choice(scopegen.NAMES)
+                ops.append({"op": "rm", "path": nm} if rng.random() < 0.4 else {"op": "set", "path": nm, "value": str(tag + 50)})
+                if mode != "live" and rng.random() < 0.5:
+                    ops.append({"op": "restart"})
             ops.append({"op": kind, "path": ".".join(probe), "value": value})
         return {"prop": "C11", "engine": "session", "seed": seed, "tier": tier, "cfg": {}, "doc": prog["text"], "ops": ops}
 
